@@ -231,7 +231,11 @@ def run(ctx):
         src = {LN: ", ".join(rng.choice(ALPHA[:8]) for _ in range(n))}
         if rng.random() < 0.5:
             src = ExtendedPropertyDictionary(src)
-        ws = [DigitalWaveform(2, n, extended_properties=src) for _ in range(rng.randint(2, 3))]
+        # a plain dict is copied whatever the flag says (only a dictionary object can be shared); a dictionary object here gets True / default
+        flag = rng.choice([None, True, False]) if isinstance(src, dict) else rng.choice([None, True])
+        kw = {} if flag is None else {"copy_extended_properties": flag}
+        ws = [DigitalWaveform(2, n, extended_properties=src, **kw) for _ in range(rng.randint(2, 3))]
+        ctx.count("same-mapping", f"{type(src).__name__} flag={flag}")
         for w in ws:
             if rng.random() < 0.7:
                 [w.signals[i].name for i in range(n)]
